@@ -101,7 +101,7 @@ func featureRule(g *Gen) string {
 		mods = append(mods, "client=~127.0.0.1")
 	}
 	if g.Chance(1, 5) {
-		mods = append(mods, "denyallow=example.net")
+		mods = append(mods, Pick(g, []string{"denyallow=example.net", "denyallow=example.net", "denyallow=example.net|example.com", "denyallow=example.net|example.com|test.com|a.com"}))
 	}
 	if g.Chance(1, 12) {
 		mods = append(mods, "badfilter")
@@ -156,6 +156,10 @@ func init() {
 		"||example.org^$domain=example.org,script", "||example.org^$ctag=~a,script", "||example.org^$client=~Mom,script",
 		"||example.org^$denyallow=example.net,script", "||example.org^$dnstype=~A,script",
 		"||example.org^$domain=example.org|~sub.example.org", "||example.org^$domain=example.org|~sub.example.org,script", "||example.org^$domain=~a.org|~b.org",
+		// the NUMBER of values inside a list-valued modifier never counts, only its presence
+		"||example.org^$denyallow=a.com|b.com", "||example.org^$denyallow=a.com|b.com|c.com|d.com", "||example.org^$ctag=a,client=Mom", "||example.org^$ctag=a,client=Mom,dnstype=A",
+		"||example.org^$denyallow=a.com|b.com|c.com,script", "||example.org^$domain=a.org|b.org|c.org|d.org", "||example.org^$domain=a.org,script", "||example.org^$ctag=a|b|c|d", "||example.org^$client=Mom|Dad|Kids",
+		"||example.org^$dnstype=A|AAAA|CNAME|MX", "||example.org^$dnstype=A,ctag=a",
 		"||example.org^$match-case,~match-case", "||example.org^$image,~image", "||example.org^$third-party,~third-party", "||example.org^$~match-case",
 	}
 	register("c07", &Prop{
